@@ -48,6 +48,9 @@ REQUIRED_THEOREMS = [
     # (b) since the run-10000 fix (no bound on run numbers / history length) and for run-suffixed result names
     "run_names_have_run_suffix", "history_only_runs", "latest_of_run_suffixed_name_spec", "history_latest_counterexample",
     "history_latest_of_run_suffixed_name", "history_latest_of_run_suffixed_name_no_runs",
+    # (b') result names with path separators (after the fix result-name-subfolder), aborted saves
+    "tree_wf_kept", "run_numbers_fresh", "optimize_stores_run", "earlier_runs_unchanged_tree", "folder_listing_after_save",
+    "latest_after_save_tree", "partial_run_never_reused", "latest_after_aborted_save_counterexample",
 ]
 TRUSTED = [
     "hand-written model lean/GlotaranModel/C18.lean of io_plugin_utils.protect_from_overwrite / infer_file_format, "
@@ -65,7 +68,11 @@ TRUSTED = [
 ]
 ASSUMPTIONS = [
     "paths are absolute, normalised and free of symbolic links (Path.resolve is the identity on them)",
-    "result names are ASCII, contain no '/' and no newline (Python's \\d and int() also accept other Unicode digits)",
+    "result names are ASCII and contain no newline (Python's \\d and int() also accept other Unicode digits); names with '/' "
+    "are read as posix paths (part (b'): split at '/', empty and '.' parts dropped; absolute names and names with a '..' part are "
+    "rejected by the code since the fix result-name-subfolder); Project.results (rglob over every folder) is modelled for one "
+    "results folder only (part (b)), not for sub folders",
+    "an aborted save is a run folder without result.yml (Kind.emptyDir), whatever else the plugin had written before the fault",
     "a result name that itself ends in _run_<four or more digits> is ambiguous for the latest-lookups by API design "
     "(get_latest_result_path strips a run specifier first, get_result_path takes it for a run folder): the latest theorems "
     "carry the hypothesis `endsWithRunSpecifier name = false`; what happens for such names is stated by "
@@ -94,7 +101,16 @@ RULE = (
     "non-trivial = at least two runs; distinct = distinct operation sequences. quick: seeded sample of the "
     "exhaustive space + random longer histories + histories across the 9999/10000 boundary (seeded run folders, "
     "five-digit and zero-padded foreign entries) + a few histories through the real "
-    "Project.optimize; thorough: every history of length <= 5 over 5 names"
+    "Project.optimize; thorough: every history of length <= 5 over 5 names. "
+    "(b') histories of optimize / aborted save (stand-in plugin raising before write 0, 1, 2 of its three files) / foreign file / "
+    "foreign folder over result names with separators {sub/m, m, sub/, sub/deep/m, ./sub//m, sub/m_run_0000/x, ../m, <absolute>/m, "
+    "sub/../m, .., blk/m, sub/m_run_b, sub/m_run_0000, ''} on the real ProjectResultRegistry of a scratch project; after every "
+    "operation previous/create/lookups of the touched and two other names and the whole tree below results/ against the RTree "
+    "model; pathlib's reading of f'{name}_run_' against folderOf / leafOf / nameRejected over all texts of <= 4 pieces of "
+    "{a, /, ., .., _run_, 0000, b} (thorough; quick: 400 sampled); oracle without the model: stored, folder fresh, number above "
+    "all earlier runs and aborted saves of that name, bytes of every earlier file unchanged, nothing outside results/, "
+    "latest-lookups = most recent stored run; aborted saves at every write position also through the real Project.optimize "
+    "with the real yml plugin"
 )
 
 SAVE_FNS = ["save_model", "save_parameters", "save_scheme", "save_result", "save_dataset"]
@@ -1368,6 +1384,439 @@ def stream_histories(ck, scratch):
                "load_latest_result, folder listing; at the end all of them over a name universe + Project.results"})
 
 
+
+# ------------------------------------------------------------------------------------------------
+# (b') result names with path separators: the tree below results/  +  aborted saves
+# ------------------------------------------------------------------------------------------------
+TREE_NAMES = ["sub/m", "m", "sub/", "sub/deep/m", "./sub//m", "sub/m_run_0000/x", "../m", "@ABS@/m", "sub/../m", "..", "m/..",
+              "sub/m_run_0000", "sub/.", ".", "", "sub", "/", "sub/m_run_b", "blk/m", "sub\\m"]
+TREE_OPT_NAMES = ["sub/m", "m", "sub/", "sub/deep/m", "./sub//m", "sub/m_run_0000/x", "../m", "@ABS@/m", "sub/../m", "..", "blk/m",
+                  "sub/m_run_b", "sub/m_run_0000", ""]
+PLUGIN_FILES = ("data.nc", "model.yml", "result.yml")   # what the stand-in plugin writes, in this order (result.yml last, as YmlProjectIo)
+
+
+class Fault(Exception):
+    pass
+
+
+_FAULT_YML = []
+
+
+def fault_yml():
+    """the stand-in yml plugin of part (b') : writes PLUGIN_FILES in order, raises `Fault` before write number `fault_at`"""
+    if _FAULT_YML:
+        return _FAULT_YML[0]
+    from glotaran.io.interface import ProjectIoInterface
+
+    class FaultYml(ProjectIoInterface):
+        fault_at = None
+        last_folder = None
+
+        def save_result(self, result, result_path, saving_options=None, **kw):
+            p = Path(result_path)
+            folder = p.parent
+            type(self).last_folder = folder
+            if folder.is_file():
+                raise ValueError("blocked-by-file")
+            for i, fname in enumerate(PLUGIN_FILES):
+                if type(self).fault_at == i:
+                    raise Fault(f"plugin fault before write {i}")
+                folder.mkdir(parents=True, exist_ok=True)
+                (folder / fname).write_text(str(result.payload) if fname == "result.yml" else f"{fname} of {result.payload}")
+            return [p.as_posix()]
+
+        def load_result(self, result_path, **kw):
+            return SimpleNamespace(payload=int(Path(result_path).read_text()), source_path=None)
+
+    _FAULT_YML.append(FaultYml("yml"))
+    return _FAULT_YML[0]
+
+
+def rp(parts) -> str:
+    return lst(enc(c) for c in parts)
+
+
+def unrp(text: str) -> tuple:
+    t = core.parse_tree(text)
+    t = t[0] if len(t) == 1 and isinstance(t[0], list) else t
+    return tuple(core.dec(x) for x in t)
+
+
+class RealTree:
+    def __init__(self, root: Path):
+        from glotaran.project import Project
+
+        self.root = root
+        self.project = Project.open(root / "p")
+        self.reg = self.project._result_registry
+        self.dir = self.reg.directory
+        self.payload = 0
+
+    def name(self, n: str) -> str:
+        return n.replace("@ABS@", (self.root / "outside").as_posix())
+
+    def rel(self, path) -> tuple:
+        q = Path(os.path.normpath(path))
+        try:
+            return q.relative_to(self.dir).parts
+        except ValueError:
+            return ("<outside-results>",) + q.parts[-2:]
+
+    def listing(self) -> dict:
+        out = {}
+        for p in self.dir.rglob("*"):
+            parts = p.relative_to(self.dir).parts
+            if p.is_dir():
+                f = p / "result.yml"
+                out[parts] = ("run", int(f.read_text())) if f.is_file() else ("empty", 0)
+            elif p.name not in PLUGIN_FILES:
+                out[parts] = ("file", 0)
+        return out
+
+    def file_bytes(self) -> dict:
+        return {p.relative_to(self.dir).as_posix(): p.read_bytes() for p in self.dir.rglob("*") if p.is_file()}
+
+    def dump(self) -> str:
+        l = self.listing()
+        return lst(f"[{rp(k)},{l[k][0]},{l[k][1]}]" for k in sorted(l))
+
+    def outside(self) -> list:
+        """everything of the scratch root that is not below results/ (a result must never be written there)"""
+        return sorted(p.relative_to(self.root).as_posix() for p in self.root.rglob("*")
+                      if self.dir not in p.parents and p != self.dir)
+
+    def apply(self, op):
+        kind = op[0]
+        if kind in ("opt", "abort"):
+            name = self.name(op[1])
+            plugin = fault_yml()
+            type(plugin).fault_at = op[2] if kind == "abort" else None
+            type(plugin).last_folder = None
+            if kind == "opt":
+                self.payload += 1
+                line = f"tree-save {enc(name)} {self.payload}"
+            else:
+                line = f"tree-abort {enc(name)}"
+            before = self.listing()
+            try:
+                self.reg.save(name, SimpleNamespace(payload=self.payload if kind == "opt" else 0, source_path=None))
+            except FileExistsError as e:
+                if getattr(e, "filename", None):   # raised by mkdir: a file where a folder is needed
+                    return line, f"blocked {rp(self.rel(e.filename))}"
+                m = re.search(r"PosixPath\('([^']*)/result\.yml'\)", str(e))
+                return line, f"FileExistsError {rp(self.rel(m.group(1))) if m else '?'}"
+            except NotADirectoryError as e:
+                return line, f"blocked {rp(self.rel(e.filename))}"
+            except Fault:
+                return line, f"blocked {rp(self.rel(type(plugin).last_folder))}"
+            except ValueError as e:
+                if "is not a relative path inside" in str(e):
+                    return line, "rejected"
+                if "blocked-by-file" in str(e):
+                    return line, f"blocked {rp(self.rel(type(plugin).last_folder))}"
+                return line, f"raised ValueError:{enc(str(e)[:80])}"
+            except Exception as e:  # noqa: BLE001
+                return line, f"raised {type(e).__name__}:{enc(str(e)[:80])}"
+            finally:
+                type(plugin).fault_at = None
+            after = self.listing()
+            new = [k for k in after if after[k][0] == "run" and after[k] != before.get(k)]
+            return line, "saved " + (rp(new[0]) if len(new) == 1 else "?" + strs(sorted("/".join(k) for k in new)))
+        if kind == "mk":
+            _, parts, k = op
+            target = self.dir.joinpath(*parts)
+            if target.exists() or not target.parent.is_dir():
+                return None, None
+            if k == "file":
+                target.write_text("foreign")
+            else:
+                target.mkdir()
+            return f"tree-mk {rp(parts)} {'file' if k == 'file' else 'empty'} 0", None
+        name = self.name(op[1]) if len(op) > 1 else None
+        if kind == "previous":
+            try:
+                return f"tree-previous {enc(name)}", lst(rp(self.rel(q)) for q in self.reg.previous_result_paths(name))
+            except ValueError as e:
+                return f"tree-previous {enc(name)}", "rejected" if "is not a relative path inside" in str(e) else f"raised ValueError:{enc(str(e)[:80])}"
+            except Exception as e:  # noqa: BLE001
+                return f"tree-previous {enc(name)}", f"raised {type(e).__name__}"
+        if kind == "create":
+            try:
+                return f"tree-create {enc(name)}", "name " + enc(self.reg.create_result_run_name(name))
+            except ValueError as e:
+                return f"tree-create {enc(name)}", "rejected" if "is not a relative path inside" in str(e) else f"raised ValueError:{enc(str(e)[:80])}"
+            except Exception as e:  # noqa: BLE001
+                return f"tree-create {enc(name)}", f"raised {type(e).__name__}:{enc(str(e)[:80])}"
+        if kind in ("path", "latest", "load", "load-latest"):
+            latest = op[2] if len(op) > 2 else None
+            line = {"path": f"tree-path {enc(name)} {bool_(latest)}", "latest": f"tree-latest {enc(name)}",
+                    "load": f"tree-load {enc(name)} {bool_(latest)}", "load-latest": f"tree-load-latest {enc(name)}"}[kind]
+            with warnings.catch_warnings(record=True) as w:
+                warnings.simplefilter("always")
+                try:
+                    if kind == "path":
+                        r = self.project.get_result_path(name, latest=latest)
+                    elif kind == "latest":
+                        r = self.project.get_latest_result_path(name)
+                    elif kind == "load":
+                        r = self.project.load_result(name, latest=latest)
+                    else:
+                        r = self.project.load_latest_result(name)
+                    err = None
+                except (ValueError, FileNotFoundError, NotADirectoryError) as e:
+                    err, r = e, None
+                except Exception as e:  # noqa: BLE001
+                    return line, f"raised {type(e).__name__}:{enc(str(e)[:80])}"
+            warned = any(issubclass(x.category, UserWarning) and "missing the run specifier" in str(x.message) for x in w)
+            if isinstance(err, ValueError):
+                if "is not a relative path inside" in str(err):
+                    return line, f"rejected {bool_(warned)}"
+                m = re.match(r"Result '(.*)' does not exist\.", str(err), re.S)
+                shown = m.group(1).replace("\\\\", "\\") if m else None    # the message holds repr(name)
+                return line, f"err {enc(shown) if m else '?'} {bool_(warned)}"
+            if err is not None:
+                return line, f"broken {rp(self.rel(Path(err.filename).parent))} {bool_(warned)}"
+            if kind in ("path", "latest"):
+                return line, f"found {rp(self.rel(r))} {bool_(warned)}"
+            return line, f"loaded {rp(self.rel(Path(r.source_path).parent))} {r.payload} {bool_(warned)}"
+        if kind == "dump":
+            return "tree-dump", self.dump()
+        raise AssertionError(op)
+
+
+class TreeOracle:
+    """the statement on names with sub folders, recomputed from the history and the file system alone: every optimize of an
+    accepted name is stored, under a number above all earlier runs (stored or aborted) of that name, in a folder that did not
+    exist; earlier runs and partial folders keep their bytes; latest-lookups give the most recent stored run of that name;
+    nothing is ever written outside results/"""
+
+    def __init__(self, ck, real: RealTree):
+        self.ck, self.real = ck, real
+        self.runs: dict[str, list] = {}       # canonical name -> [(folder parts, payload)]
+        self.numbers: dict[str, int] = {}     # canonical name -> highest number seen (stored or aborted)
+        self.partial: dict[tuple, dict] = {}  # folder parts of an aborted save -> its files
+        self.tainted: set = set()
+        self.partial_newer: set = set()       # names whose newest run folder is an aborted save
+        self.outside0 = real.outside()
+        self.bytes0 = real.file_bytes()
+
+    @staticmethod
+    def canonical(name: str):
+        """(folder parts, leaf) the way a path is read: text up to the last '/', '.' and empty parts dropped; None = leaves results/"""
+        head, _, leaf = name.rpartition("/")
+        comps = [c for c in head.split("/") if c not in ("", ".")] if head or name.startswith("/") else []
+        if name.startswith("/") or ".." in comps:
+            return None
+        return tuple(comps), leaf
+
+    def after(self, op, answer, history):
+        ck, real = self.ck, self.real
+        case = {"kind": "tree-history", "ops": history}
+        ck.oracle_evals += 1
+        now = real.file_bytes()
+        for f, b in self.bytes0.items():
+            if now.get(f) != b:
+                ck.violation("earlier-run-changed", f"file results/{f} changed or vanished after {op}", case)
+        if real.outside() != self.outside0:
+            ck.violation("result-written-outside-results", f"{op} changed the project outside results/: "
+                         f"{sorted(set(real.outside()) ^ set(self.outside0))[:4]}", case)
+            self.outside0 = real.outside()
+        self.bytes0 = now
+        if op[0] == "mk":
+            self.tainted.add(tuple(op[1][:-1]))
+            return
+        if op[0] not in ("opt", "abort"):
+            return
+        name = real.name(op[1])
+        can = self.canonical(name)
+        if can is None:
+            if answer != "rejected":
+                ck.violation("escaping-name-not-rejected", f"result name {name!r} leaves the results folder: {answer}", case)
+            return
+        folder, leaf = can
+        if answer.startswith("blocked ") and op[0] == "opt":
+            ck.count("b':blocked-by-file")
+            return   # a foreign plain file where the sub folder should be: outside the statement's histories
+        if op[0] == "abort":
+            if not answer.startswith("blocked "):
+                ck.violation("aborted-save-outcome", f"aborted save of {name!r}: {answer}", case)
+                return
+            parts = unrp(answer.split(" ", 1)[1])
+            target = real.dir.joinpath(*parts)
+            if target.is_dir():
+                m = re.fullmatch(re.escape(leaf) + r"_run_([0-9]{4,})", parts[-1])
+                if parts[:-1] == folder and m:
+                    nr = int(m.group(1))
+                    if nr <= self.numbers.get((folder, leaf), -1):
+                        ck.violation("partial-run-reused", f"the aborted save of {name!r} went to run {nr}, earlier runs reach "
+                                     f"{self.numbers[(folder, leaf)]}", case)
+                    self.numbers[(folder, leaf)] = max(self.numbers.get((folder, leaf), -1), nr)
+                    self.partial_newer.add((folder, leaf))
+                    self.latest_checks(case, only=(folder, leaf))
+            return
+        if not answer.startswith("saved ") or "?" in answer:
+            ck.violation("optimize-result-not-stored", f"storing a run of result {name!r} failed: {answer}", case)
+            return
+        parts = unrp(answer.split(" ", 1)[1])
+        m = re.fullmatch(re.escape(leaf) + r"_run_([0-9]{4,})", parts[-1])
+        if parts[:-1] != folder or m is None:
+            ck.violation("run-folder-name", f"run of {name!r} was stored in {'/'.join(parts)!r}", case)
+            return
+        nr = int(m.group(1))
+        key = (folder, leaf)
+        if key not in self.numbers and folder in self.tainted:
+            self.numbers[key] = -1
+        if nr <= self.numbers.get(key, -1):
+            ck.violation("run-number-not-increasing", f"run of {name!r} got number {nr}, earlier runs (stored or aborted) reach "
+                         f"{self.numbers[key]}", case)
+        self.numbers[key] = max(self.numbers.get(key, -1), nr)
+        self.runs.setdefault(key, []).append((parts, real.payload))
+        self.partial_newer.discard(key)
+        self.latest_checks(case)
+
+    def latest_checks(self, case, only=None):
+        ck, real = self.ck, self.real
+        for k2, rs in self.runs.items():
+            if only is not None and k2 != only:
+                continue
+            for parts2, payload2 in rs:
+                run_name = "/".join(parts2)
+                try:
+                    with warnings.catch_warnings():
+                        warnings.simplefilter("ignore")
+                        got = real.project.load_result(run_name)
+                    if got.payload != payload2:
+                        ck.violation("earlier-run-loads-other", f"load_result({run_name!r}) returned the result of another run", case)
+                except Exception as e:  # noqa: BLE001
+                    if has_run_suffix(run_name):
+                        ck.violation("earlier-run-not-loadable", f"load_result({run_name!r}) raised {type(e).__name__}: {str(e)[:100]}", case)
+            # latest of exactly that name (skipped for names ending in a run specifier: known finding of part (b))
+            f2, l2 = k2
+            given = "/".join(f2 + (l2,))
+            if split_run_specifier(given) is not None or k2[0] in self.tainted or not rs:
+                continue
+            want_parts, want_payload = rs[-1]
+            for label, fn in (("get_latest_result_path", lambda n: real.rel(real.project.get_latest_result_path(n))),
+                              ("load_latest_result", lambda n: real.project.load_latest_result(n).payload)):
+                want = want_payload if label.startswith("load") else want_parts
+                try:
+                    with warnings.catch_warnings():
+                        warnings.simplefilter("ignore")
+                        got = fn(given)
+                except Exception as e:  # noqa: BLE001
+                    got = f"{type(e).__name__}: {str(e)[:80]}"
+                if got != want:
+                    if k2 in self.partial_newer:
+                        ck.violation("latest-after-aborted-save", f"after an aborted save of {given!r} (run folder without result.yml) "
+                                     f"{label}({given!r}) gave {got!r}, the most recent stored run of that name is {want!r}", case)
+                    else:
+                        ck.violation("latest-wrong-run", f"{label}({given!r}) gave {got!r}, the most recent run of that name is {want!r}", case)
+
+
+def tree_observe_ops(names):
+    ops = []
+    for n in names:
+        ops += [("previous", n), ("create", n), ("path", n, False), ("path", n, True), ("latest", n), ("load", n, True), ("load-latest", n)]
+    return ops
+
+
+def run_tree_history(ck, scratch, hist, batch, light=False):
+    from glotaran.testing.plugin_system import monkeypatch_plugin_registry_project_io
+
+    root = scratch.fresh()
+    try:
+        with monkeypatch_plugin_registry_project_io({"yml": fault_yml()}):
+            real = RealTree(root)
+            case = {"kind": "tree-history", "ops": [list(o) for o in hist]}
+            batch.add("tree-reset []", None, case)
+            orc = TreeOracle(ck, real)
+            done = []
+            for op in hist:
+                line, ans = real.apply(op)
+                if line is None:
+                    continue
+                batch.add(line, ans, case)
+                if ans:
+                    ck.count("b':" + op[0] + ":" + ans.split(" ")[0])
+                done.append(list(op))
+                orc.after(op, ans or "", [list(o) for o in done])
+                near = [op[1]] if op[0] != "mk" else []
+                if not light:
+                    near += ck.rng.sample(TREE_NAMES, 2)
+                for o in tree_observe_ops(near) + [("dump",)]:
+                    l, a = real.apply(o)
+                    batch.add(l, a, case)
+            if not light:
+                for o in tree_observe_ops(TREE_NAMES + ["sub/m_run_0001", "sub/m_run_0000/x_run_0000", "m_run_0000", "sub/deep"]) + [("dump",)]:
+                    l, a = real.apply(o)
+                    batch.add(l, a, case)
+                    if o[0] in ("path", "latest", "load", "load-latest"):
+                        ck.count(f"b':{o[0]}:" + a.split(" ")[0])
+            runs = sum(1 for v in real.listing().values() if v[0] == "run")
+            return case, runs
+    finally:
+        scratch.drop(root)
+
+
+TREE_CORPUS_BUILTIN = [
+    # the reported defect (fixed: result-name-subfolder): the second optimisation of sub/m was refused
+    [("opt", "sub/m"), ("opt", "sub/m"), ("opt", "m"), ("opt", "sub/m")],
+    # trailing separator, doubled separator, '.', names that leave the results folder
+    [("opt", "sub/"), ("opt", "sub/"), ("opt", "./sub//m"), ("opt", "sub/m"), ("opt", "../m"), ("opt", "@ABS@/m"), ("opt", "sub/../m"), ("opt", "..")],
+    # a result stored inside the run folder of another one; a plain file where the sub folder should be
+    [("opt", "sub/m"), ("opt", "sub/m_run_0000/x"), ("opt", "sub/m"), ("opt", "sub/m_run_0000/x"), ("mk", ("blk",), "file"), ("opt", "blk/m")],
+    # aborted saves at every write position of the plugin: the partial folder is neither reused nor removed
+    [("opt", "sub/m"), ("abort", "sub/m", 0), ("opt", "sub/m"), ("abort", "sub/m", 1), ("abort", "sub/m", 2), ("opt", "sub/m"), ("abort", "m", 0), ("opt", "m")],
+]
+
+
+def stream_tree(ck, scratch):
+    batch = Batch()
+
+    def go(hist, tag, **kw):
+        case, runs = run_tree_history(ck, scratch, hist, batch, **kw)
+        ck.case(("tree-history", tuple(map(tuple, hist))), runs >= 2)
+        ck.count(f"b':stream:{tag}")
+        if len(batch.lines) > 60000:
+            batch.diff(ck, "tree-model-vs-impl")
+            batch.__init__()
+
+    for c in core.load_corpus(PROP):
+        if c.get("kind") == "tree-history":
+            go([tuple(tuple(x) if isinstance(x, list) else x for x in o) for o in c["ops"]], "corpus")
+    for h in TREE_CORPUS_BUILTIN:
+        go(h, "regression")
+    # name reading alone (pathlib vs folderOf / leafOf / nameRejected) over a wider alphabet
+    alphabet = ["a", "/", ".", "..", "_run_", "0000", "b"]
+    texts = {"".join(t) for n in range(0, 5) for t in itertools.product(alphabet, repeat=n)}
+    texts = sorted(texts)
+    if ck.quick:
+        ck.rng.shuffle(texts)
+        texts = texts[:400]
+    for s in texts:
+        pre = Path(f"{s}_run_")
+        rejected = pre.is_absolute() or ".." in pre.parts
+        batch.add(f"tree-parts {enc(s)}", f"{bool_(rejected)} {rp(pre.parent.parts if not pre.is_absolute() else [c for c in pre.parent.parts[1:]])} "
+                  f"{enc(pre.name[:-5])}", {"kind": "tree-parts", "name": s})
+        ck.count("b':name-readings")
+    for _ in range(ck.n(60, 1500)):
+        h = []
+        for _ in range(ck.rng.randint(3, 9)):
+            r = ck.rng.random()
+            if r < 0.7:
+                h.append(("opt", ck.rng.choice(TREE_OPT_NAMES)))
+            elif r < 0.85:
+                h.append(("abort", ck.rng.choice(["sub/m", "m", "sub/deep/m", "sub/", "../m"]), ck.rng.randint(0, len(PLUGIN_FILES) - 1)))
+            else:
+                parts = ck.rng.choice([("blk",), ("sub",), ("sub", "m_run_0007"), ("m_run_0003",), ("sub", "m_run_x"), ("sub", "deep"),
+                                       ("sub", "_run_0002"), ("sub", "m_run_00011")])
+                h.append(("mk", parts, ck.rng.choice(["file", "dir"])))
+        go(h, "sampled", light=ck.rng.random() < 0.5)
+    batch.diff(ck, "tree-model-vs-impl")
+    ck.sample({"tree-history": [list(o) for o in TREE_CORPUS_BUILTIN[0]], "observed_after_each_op":
+               "previous_result_paths, create_result_run_name, get_result_path, get_latest_result_path, load_result, load_latest_result, "
+               "the whole tree below results/; oracle: stored / fresh / increasing / bytes of earlier files / nothing outside results/"})
+
 # ------------------------------------------------------------------------------------------------
 # (b) through the real Project.optimize / real yml plugin
 # ------------------------------------------------------------------------------------------------
@@ -1491,6 +1940,97 @@ def stream_real_optimize(ck, scratch):
             scratch.drop(root)
 
 
+def stream_real_subfolder(ck, scratch):
+    """(b') through the real Project.optimize and the real yml plugin: a model in a sub folder (default result name 'sub/m'),
+    a fault injected at every call position of YmlProjectIo.save_result"""
+    import glotaran.builtin.io.yml.yml as ymlmod
+    from glotaran.io import save_parameters
+    from glotaran.project import Project
+    from glotaran.testing.simulated_data.sequential_spectral_decay import DATASET, MODEL_YML, PARAMETERS
+
+    positions = [n for n in ("save_result", "save_model", "save_scheme", "write_dict") if hasattr(ymlmod, n)]
+    if len(positions) < 4:
+        ck.disagree("yml-plugin-call-positions", f"YmlProjectIo.save_result no longer calls all of save_result/save_model/save_scheme/"
+                    f"write_dict through module attributes: {positions}", {"kind": "optimize-subfolder"})
+    plan = [None] + positions[: (2 if ck.quick else 4)] + [None]
+    if ck.quick and len(positions) == 4:
+        plan = [None, positions[ck.rng.randrange(0, 2)], positions[ck.rng.randrange(2, 4)], None]
+    root = scratch.fresh()
+    try:
+        project = Project.open(root / "p")
+        project.import_data(DATASET.isel(spectral=slice(0, 6)), dataset_name="dataset_1")
+        (project.folder / "models" / "sub").mkdir(parents=True)
+        (project.folder / "models" / "sub" / "m.yml").write_text(MODEL_YML)
+        save_parameters(PARAMETERS, project.folder / "parameters" / "pars.csv")
+        results = project.folder / "results"
+        batch = Batch()
+        case = {"kind": "optimize-subfolder", "plan": plan}
+        batch.add("tree-reset []", None, case)
+        payload, highest, stored = 0, -1, []
+        for fault in plan:
+            before = {q.relative_to(results).as_posix(): (q.read_bytes() if q.is_file() else None) for q in results.rglob("*")}
+            orig = getattr(ymlmod, fault) if fault else None
+            if fault:
+                def boom(*a, **k):
+                    raise Fault(f"fault injected at {fault}")
+                setattr(ymlmod, fault, boom)
+            try:
+                with warnings.catch_warnings(), contextlib.redirect_stdout(io.StringIO()):
+                    warnings.simplefilter("ignore")
+                    project.optimize("sub/m", "pars", maximum_number_function_evaluations=1)
+                err = None
+            except Exception as e:  # noqa: BLE001
+                err = e
+            finally:
+                if fault:
+                    setattr(ymlmod, fault, orig)
+            ck.oracle_evals += 1
+            after = {q.relative_to(results).as_posix(): (q.read_bytes() if q.is_file() else None) for q in results.rglob("*")}
+            changed = sorted(k for k in before if after.get(k, b"?") != before[k])
+            if changed:
+                ck.violation("earlier-run-changed", f"optimize('sub/m') (fault: {fault}) changed or removed {changed[:4]}", case)
+            new_dirs = sorted(k for k in after if k not in before and after[k] is None and re.fullmatch(r"sub/m_run_[0-9]{4,}", k))
+            if len(new_dirs) != 1:
+                ck.violation("optimize-result-not-stored" if fault is None else "aborted-save-outcome",
+                             f"optimize('sub/m') (fault: {fault}) raised {type(err).__name__ if err else None}: {str(err)[:100]}; "
+                             f"new run folders {new_dirs}", case)
+                batch.add("tree-save sub%2Fm 0" if fault is None else "tree-abort sub%2Fm", f"raised {type(err).__name__ if err else 'nothing'}", case)
+                continue
+            nr = int(new_dirs[0].rsplit("_", 1)[1])
+            if nr <= highest:
+                ck.violation("run-number-not-increasing" if fault is None else "partial-run-reused",
+                             f"optimize('sub/m') (fault: {fault}) used run {nr}, earlier folders reach {highest}", case)
+            highest = max(highest, nr)
+            has_yml = (results / new_dirs[0] / "result.yml").is_file()
+            if fault is None:
+                payload += 1
+                if err is not None or not has_yml:
+                    ck.violation("optimize-result-not-stored", f"optimize('sub/m') raised {type(err).__name__}: {str(err)[:100]}", case)
+                batch.add(f"tree-save sub%2Fm {payload}", "saved " + rp(new_dirs[0].split("/")), case)
+                stored.append(new_dirs[0])
+                with warnings.catch_warnings():
+                    warnings.simplefilter("ignore")
+                    try:
+                        got = project.get_latest_result_path("sub/m").relative_to(results).as_posix()
+                        for f in stored:
+                            project.load_result(f)
+                    except Exception as e:  # noqa: BLE001
+                        got = f"{type(e).__name__}: {str(e)[:80]}"
+                if got != new_dirs[0]:
+                    ck.violation("latest-wrong-run", f"get_latest_result_path('sub/m') gave {got!r} after storing {new_dirs[0]!r}", case)
+                batch.add("tree-latest sub%2Fm", f"found {rp(got.split('/'))} F", case)
+            else:
+                if not isinstance(err, Fault) or has_yml:
+                    ck.violation("aborted-save-outcome", f"fault at {fault}: raised {type(err).__name__}, result.yml written: {has_yml}", case)
+                batch.add("tree-abort sub%2Fm", "blocked " + rp(new_dirs[0].split("/")), case)
+                ck.count(f"b':real-fault:{fault}")
+            ck.count("b':real-subfolder-optimize")
+        batch.diff(ck, "optimize-subfolder-model-vs-impl")
+        ck.case(("optimize-subfolder", tuple(plan)), True)
+    finally:
+        scratch.drop(root)
+
+
 def _tree_hash(folder: Path) -> str:
     h = hashlib.sha1()
     for p in sorted(folder.rglob("*")):
@@ -1547,12 +2087,14 @@ def run(ck):
         corpus = core.load_corpus(PROP)
         timed("corpus-saves", replay_saves, ck, scratch, [c for c in corpus if c.get("kind") == "save"], "corpus")
         timed("histories", stream_histories, ck, scratch)
+        timed("tree", stream_tree, ck, scratch)
         timed("protect", stream_protect, ck, scratch)
         timed("guarded", stream_guarded, ck, scratch)
         timed("scripted", stream_scripted, ck, scratch)
         timed("builtin", stream_builtin, ck, scratch)
         timed("result-plugins", stream_result_plugins, ck, scratch)
         timed("real-optimize", stream_real_optimize, ck, scratch)
+        timed("real-subfolder", stream_real_subfolder, ck, scratch)
         ck.extra["phase_seconds"] = phases
     finally:
         scratch.close()
@@ -1578,6 +2120,10 @@ def search(ck):
         batch = Batch()
         for h in CORPUS_BUILTIN:
             run_history(ck, scratch, h, batch, light=True)
+        for h in TREE_CORPUS_BUILTIN:
+            run_tree_history(ck, scratch, h, batch, light=True)
+        if ck.violations:
+            return
         for h in itertools.islice(history_space(NAMES5, 4), 0, None, 3):
             run_history(ck, scratch, h, batch, light=True)
             if ck.violations:
@@ -1611,6 +2157,12 @@ def replay(ck, case):
                 batch = Batch()
                 run_history(ck, scratch, [tuple(o) for o in c["ops"]], batch, seed_dirs=tuple(c.get("seed_dirs", ())))
                 batch.diff(ck, "registry-model-vs-impl")
+            elif kind == "tree-history":
+                batch = Batch()
+                run_tree_history(ck, scratch, [tuple(tuple(x) if isinstance(x, list) else x for x in o) for o in c["ops"]], batch)
+                batch.diff(ck, "tree-model-vs-impl")
+            elif kind == "tree-parts":
+                stream_tree(ck, scratch)
             elif kind == "save":
                 replay_saves(ck, scratch, [c], "replay")
             elif kind in ("protect", "protect-relative"):
@@ -1623,6 +2175,8 @@ def replay(ck, case):
                 stream_result_plugins(ck, scratch)
             elif kind == "optimize":
                 stream_real_optimize(ck, scratch)
+            elif kind == "optimize-subfolder":
+                stream_real_subfolder(ck, scratch)
             else:
                 print(f"replay: unknown case kind {kind!r}; re-run the check with the recorded seed")
         for d in ck.disagreements:
